@@ -294,6 +294,14 @@ def cases(tier, seed):
         yield dict(base=b, devs=[])
         for i in range(len(MENU)):
             yield dict(base=b, devs=[i])
+    if tier != 'thorough':
+        # the two listed findings that need a pair of deviations are part of the quick tier too
+        idx = {}
+        for i, ov in enumerate(MENU):
+            idx.setdefault(tuple(ov), i)
+        for b, x, y in (('geo', ('-a', '3,1,0,360,.001'), ('--geo-rotate', '1,0,0,-100')),
+                        ('lds', ('--frequency-steps', '50'), ('-w', '4,0,0,0,0,0,1,5'))):
+            yield dict(base=b, devs=sorted([idx[x], idx[y]]))
     if tier == 'thorough':
         # pairs over the menu without the extreme-magnitude entries (1e300 / 1e-300): those are covered as single
         # deviations (most are listed findings) and would only multiply the same overflow under other names
